@@ -81,6 +81,7 @@ def check(ctx):
     w = db.fn('type_assignment.marker_cache_v2:write_query_markers_to_h5')
     R.check_writer_roles(ctx, w)
     R.check_cosort(ctx, w)
+    check_cpm_denominator(ctx)
 
 
 def check_negative_rejected(ctx):
@@ -506,3 +507,42 @@ def check_columns_by_name(ctx):
            if ok else
            'after an in-place down-selection the name -> column map is '
            'stale')
+
+
+def check_cpm_denominator(ctx):
+    """CPM divides every cell by its own total; the only cells whose
+    divisor may be replaced are those whose total is zero.  A divisor
+    obtained by clamping the totals from below (maximum / clip / clamp)
+    leaves every cell with 0 < total < bound un-normalised, so the result
+    depends on the scale of the counts."""
+    db = ctx.db
+    fi = db.fn('cell_by_gene.utils:convert_to_cpm')
+    ctx.touch(fi)
+    cfg = cfg_of(fi)
+    rd = rd_of(fi)
+    rule = 'R-IDIOM/cpm-denominator'
+    n = 0
+    for e in ast.walk(fi.node):
+        if not (isinstance(e, ast.BinOp) and isinstance(e.op, ast.Div)):
+            continue
+        ns = [x for x in cfg.node_of_expr(e) if x.id in rd.live]
+        if not ns:
+            continue
+        sl = backward_slice(fi, e.right, ns[0].id)
+        if not sl.has_call('sum'):
+            continue
+        n += 1
+        clamps = sl.call_names() & {'maximum', 'clip', 'clamp', 'fmax',
+                                    'max'}
+        where = sl.has_call('where')
+        ok = not clamps and where
+        ctx.ob(rule, f'{fi.qual}:div#{n - 1}', fi.loc(e), ok,
+               'cells are divided by their own total; only zero totals '
+               'are replaced' if ok else
+               f'the divisor of `{unparse(e)[:50]}` is built with '
+               f'{sorted(clamps) or "no zero-total replacement"}: totals '
+               'between 0 and the bound are not normalised, so scaling a '
+               'raw cell changes its CPM')
+    if n == 0:
+        raise AnalysisError('convert_to_cpm: no division by the row sums '
+                            'found')
